@@ -147,6 +147,10 @@ func checkProperty(e *engine.Engine, verif, id, tier string, seed int, loadS flo
 			e.SkipRace[k.Obligation] = true
 		}
 	}
+	for _, u := range cfg.Unproved {
+		// declared not-covered obligations: reported as such whatever the solvers say
+		e.SkipRace[u] = true
+	}
 	scratch, _ := os.MkdirTemp("", "govc-"+id+"-")
 	if !keep {
 		defer os.RemoveAll(scratch)
